@@ -49,6 +49,7 @@ LINES = [
     ("blank", ""),
     ("short", "   "),
     ("long", PAD + "u{n} = {n}|72|SEQ{n}"),
+    ("long73", PAD + "u{n} = {n}|72|7"),
     ("longbang", PAD + "u{n} = {n}|72|!SEQ{n}"),
     ("longopen", PAD + "y{n} = g({n},|72|SEQ{n}"),
     ("longopen80", PAD + "y{n} = g({n},|72| + q{n} + r{n},"),
@@ -144,8 +145,8 @@ def fixed_to_ref_free(lines, length_limit):
 
 
 class Feeder:
-    def __init__(self, lines):
-        self.it = iter([l + "\n" for l in lines])
+    def __init__(self, lines, eof_newline=True):
+        self.it = iter([l + "\n" for l in lines[:-1]] + [lines[-1] + ("\n" if eof_newline else "")] if lines else [])
 
     def __iter__(self):
         return self
@@ -154,10 +155,10 @@ class Feeder:
         return next(self.it)
 
 
-def run_ford_fixed(lines, length_limit):
+def run_ford_fixed(lines, length_limit, eof_newline=True):
     import ford.reader as fr
 
-    fr.open = lambda *a, **k: Feeder(lines)
+    fr.open = lambda *a, **k: Feeder(lines, eof_newline)
     err, items = None, []
     try:
         for item in fr.FortranReader("mem.f", fixed=True, length_limit=length_limit, **MARKS):
@@ -169,7 +170,7 @@ def run_ford_fixed(lines, length_limit):
     return items, err
 
 
-def judge_seq(st: Stats, seq, length_limit):
+def judge_seq(st: Stats, seq, length_limit, eof_newline=True):
     lines = [LINES[k][1].replace("{n}", str(i + 1)) for i, k in enumerate(seq)]
     lines = [l.split("|72|")[0].ljust(72) + l.split("|72|")[1] if "|72|" in l else l for l in lines]
     free, feats, ill = fixed_to_ref_free(lines, length_limit)
@@ -182,11 +183,11 @@ def judge_seq(st: Stats, seq, length_limit):
     if ill or ref.ill or not ref.complete():
         st.unjudged += 1
         return
-    items, err = run_ford_fixed(lines, length_limit)
+    items, err = run_ford_fixed(lines, length_limit, eof_newline)
     want = norm_items(ref.out)
-    f = dict(features=",".join(sorted(feats)), classes="+".join(LINES[k][0] for k in seq), length_limit=length_limit,
+    f = dict(features=",".join(sorted(feats)), classes="+".join(LINES[k][0] for k in seq), length_limit=length_limit, eof_newline=eof_newline,
              inline_comment_reaches_seqfield="inline_comment_reaches_seqfield" in feats)
-    inp = dict(lines=lines, length_limit=length_limit)
+    inp = dict(lines=lines, length_limit=length_limit, eof_newline=eof_newline)
     st.nontrivial.add(core.digest([want, length_limit]))
     if err:
         st.violation("exception-on-wellformed-input", site, f, inp, err, "no exception")
@@ -215,6 +216,9 @@ def seq_shard(args):
             judge_seq(st, seq, True)
             if any(LINES[k][0].startswith("long") for k in seq):
                 judge_seq(st, seq, False)
+            if n <= 2 or LINES[seq[-1]][0].startswith("long"):
+                # the last line of the file lacks its line terminator
+                judge_seq(st, seq, True, eof_newline=False)
     return st
 
 
@@ -461,7 +465,7 @@ def replay(path):
         print("\n".join(lines))
         free, feats, ill = fixed_to_ref_free(lines, rec["input"]["length_limit"])
         print("reference free form:", free, feats, ill)
-        items, err = run_ford_fixed(lines, rec["input"]["length_limit"])
+        items, err = run_ford_fixed(lines, rec["input"]["length_limit"], rec["input"].get("eof_newline", True))
         print("ford:", items, err)
         ref = RefFree(MARKS["docmark"], MARKS["predocmark"])
         for l in free:
